@@ -54,10 +54,9 @@ Definition remove (t : table) (n : name) : table := filter (fun e => negb (name_
 Definition register_function (t : table) (a : ann) (h : handler) : table * res unit :=
   if has t (ev_name a) then (t, Err EOther) else (t ++ [(ev_name a, h)], Ok tt).
 
-(* AS FOUND (defect D15): the presence test is inverted; a present name raises the
-   "duplicate" Exception, an absent one reaches `del` and raises KeyError *)
+(* unregister_function: normalise, refuse an absent name, delete the entry *)
 Definition unregister_function (t : table) (a : ann) : table * res unit :=
-  if has t (ev_name a) then (t, Err EOther) else (t, Err EKey).
+  if has t (ev_name a) then (remove t (ev_name a), Ok tt) else (t, Err EOther).
 
 (* register: for name in dir(resource): register_function(attr._event, attr); an exception
    leaves the methods registered so far in the table *)
@@ -71,17 +70,15 @@ Fixpoint register (t : table) (r : resource) : table * res unit :=
       end
   end.
 
-(* AS FOUND (defect D15): `attr._event in self.registered_events` tests the raw annotation:
-   a class object is never a key of the table (keys are strings) *)
-Definition raw_in (t : table) (a : ann) : bool :=
-  match a_kind a with AClass => false | AStr => has t (a_name a) end.
-
+(* unregister: for name in dir(resource): normalise attr._event; if it is a key of the table
+   call unregister_function with the (string) name; names without an entry are skipped *)
 Fixpoint unregister (t : table) (r : resource) : table * res unit :=
   match r with
   | [] => (t, Ok tt)
   | m :: r' =>
-      if raw_in t (m_ann m) then
-        match unregister_function t (m_ann m) with
+      let n := ev_name (m_ann m) in
+      if has t n then
+        match unregister_function t {| a_kind := AStr; a_name := n |} with
         | (t', Ok _) => unregister t' r'
         | (t', Err e) => (t', Err e)
         end
@@ -143,3 +140,52 @@ Fixpoint run {A} (k : dkind) (t : table) (ops : list (op A)) : table * list (out
   end.
 
 Definition table_of {A} (k : dkind) (ops : list (op A)) : table := fst (run k [] ops).
+
+(* ---------------------------------------------------------------------------------------
+   Abstract specification used by the refinement theorem: the dispatcher state as a
+   mathematical finite map (a function name -> option handler), no list, no order. *)
+Definition amap := name -> option handler.
+Definition a_empty : amap := fun _ => None.
+Definition a_set (f : amap) (n : name) (h : handler) : amap := fun m => if name_eqb n m then Some h else f m.
+Definition a_del (f : amap) (n : name) : amap := fun m => if name_eqb n m then None else f m.
+Definition a_bound (f : amap) (n : name) : bool := match f n with Some _ => true | None => false end.
+
+Definition a_regfn (f : amap) (n : name) (h : handler) : amap * res unit :=
+  if a_bound f n then (f, Err EOther) else (a_set f n h, Ok tt).
+Definition a_unregfn (f : amap) (n : name) : amap * res unit :=
+  if a_bound f n then (a_del f n, Ok tt) else (f, Err EOther).
+Fixpoint a_register (f : amap) (r : resource) : amap * res unit :=
+  match r with
+  | [] => (f, Ok tt)
+  | m :: r' =>
+      match a_regfn f (ev_name (m_ann m)) (m_h m) with
+      | (f', Ok _) => a_register f' r'
+      | (f', Err e) => (f', Err e)
+      end
+  end.
+(* unregister(resource): every class named by the resource ends up without a handler; never raises *)
+Definition a_unregister (f : amap) (r : resource) : amap * res unit :=
+  (fold_left (fun g m => a_del g (ev_name (m_ann m))) r f, Ok tt).
+Definition a_dispatch {A} (k : dkind) (f : amap) (client seqnum : A) (cname : name) (msg : A)
+  : res (list (Z * list A)) :=
+  match f cname with
+  | None => Err EDispatch
+  | Some h => if h_arity h =? nargs k then Ok [(h_id h, call_args k client seqnum msg)] else Err EType
+  end.
+
+Definition a_step {A} (k : dkind) (f : amap) (o : op A) : amap * out A :=
+  match o with
+  | ORegister r => let '(f', x) := a_register f r in (f', OUnit x)
+  | OUnregister r => let '(f', x) := a_unregister f r in (f', OUnit x)
+  | ORegFn a h => let '(f', x) := a_regfn f (ev_name a) h in (f', OUnit x)
+  | OUnregFn a => let '(f', x) := a_unregfn f (ev_name a) in (f', OUnit x)
+  | ODispatch c s n m => (f, OCalls (a_dispatch k f c s n m))
+  end.
+
+Fixpoint a_run {A} (k : dkind) (f : amap) (ops : list (op A)) : amap * list (out A) :=
+  match ops with
+  | [] => (f, [])
+  | o :: ops' =>
+      let '(f', x) := a_step k f o in
+      let '(f'', xs) := a_run k f' ops' in (f'', x :: xs)
+  end.
